@@ -9,12 +9,13 @@ compares what it observes with the dataflow semantics of the property statements
 interpreter over the pipeline description (`Ref` below).
 
 Bound (stated in the evidence):
-  acyclic family   11 templates (plain, shared, switch, one-of, nested constructs; <= 8 node classes) x every placement of at
+  acyclic family   12 templates (plain, shared, switch, one-of, nested constructs; <= 8 node classes) x every placement of at
                    most one failing node x both switch labels x 5 completion orders; each chart is run, run again, and run
                    twice overlapped
   retry family     attempts in {1,2,3} x use_default x exceptions in {narrow, default} x every outcome sequence over
                    {ok, retryable, non-retryable} of length attempts
-  recurrent family 3 templates x requested re-iterations 0..max_iterations+1 x default / no default
+  recurrent family 3 templates x requested re-iterations 0..max_iterations+1 x default / no default; a retrying node
+                   inside a recurrent subgraph x 5 x 5 outcome sequences over two iterations
 
 Outside the family on purpose (genuine known findings of the unchanged tree, each with its own obligation and
 demonstration): candidates returning None, switch labels matching no case, a case node that another consumer also uses,
@@ -39,9 +40,10 @@ from ml_pipeline_engine.node import ProcessorBase, RecurrentProcessor
 import logging
 logging.disable(logging.CRITICAL)
 
-BOUND = ('acyclic: 11 templates x <=1 failing node at every position x both switch labels x 5 completion orders x '
+BOUND = ('acyclic: 12 templates x <=1 failing node at every position x both switch labels x 5 completion orders x '
          '(first run, second run, two overlapped runs); retry: attempts 1..3 x use_default x narrow/default exceptions x '
-         'all outcome sequences; recurrent: 3 templates x 0..max+1 requested re-iterations x default / no default')
+         'all outcome sequences; recurrent: 3 templates x 0..max+1 requested re-iterations x default / no default, and a retrying '
+         'node inside a recurrent subgraph x 25 outcome sequences')
 FAILURES = []
 N_CASES = [0]
 RUN_KEY = contextvars.ContextVar('run_key', default=None)
@@ -178,6 +180,10 @@ def acyclic_templates():
     T.append(('oneof-feeds-switch-case', dict(In=RAW, D=[('d', ('in', 'In'))], A=[('a', ('in', 'In'))], B=[('b', ('in', 'In'))],
                                               X=[('x', ('oneof', ['A', 'B']))], Y=[('y', ('in', 'In'))],
                                               Out=[('p', ('sw', 'D', [('l0', 'X'), ('l1', 'Y')]))])))
+    T.append(('switch-branch-downstream-of-oneof-consumer', dict(
+        In=RAW, D=[('d', ('in', 'In'))], A=[('a', ('in', 'In'))], BS=[('s', ('in', 'In'))], B=[('b', ('in', 'BS'))],
+        F=[('f', ('oneof', ['A', 'B']))], G=[('g', ('in', 'F'))], Y=[('y', ('in', 'In'))],
+        Out=[('p', ('sw', 'D', [('l0', 'G'), ('l1', 'Y')])), ('q', ('in', 'F'))])))
     return T
 
 
@@ -418,14 +424,28 @@ def check_acyclic(tname, spec, tag, key, cfg, kind, res, obs, case):
                 fail('C19', tname, case, f'{nid(n)} saved {saves.get(nid(n), [])}', f'exactly once, value {r[1]}')
 
 
-async def acyclic():
+def known_excluded(tname, spec, failing, label):
+    """placements that fall under a recorded known finding of the unchanged tree (see the module docstring and
+    known_findings.json): the selected case of a switch consumed inside a one-of candidate fails"""
+    if tname == 'switch-in-candidate':
+        selected = dict(spec['Cand'][0][1][2])[label]
+        return selected in failing
+    return False
+
+
+async def acyclic(only_templates=None):
     counter = itertools.count()
-    for tname, spec in acyclic_templates():
+    for ti, (tname, spec) in enumerate(acyclic_templates()):
+        if only_templates is not None and ti not in only_templates:
+            continue
+        counter = itertools.count(ti * 100000)
         order = topo(spec)
         labels = ['l0', 'l1'] if deciders(spec) else ['l0']
         placements = [frozenset()] + [frozenset([n]) for n in order if n != 'In'] + [frozenset(['In'])]
         for failing in placements:
             for label in labels:
+                if known_excluded(tname, spec, failing, label):
+                    continue
                 for si, delays in enumerate(schedules(order)):
                     tag = f'e{next(counter)}'
                     obs = Obs()
@@ -676,25 +696,141 @@ async def recurrent():
                 await settle(obs, 'recurrent', case)
 
 
+async def retry_in_recurrent():
+    """a node with a retry policy inside a recurrent subgraph: the policy applies afresh in every iteration (C12 + C11)"""
+    counter = itertools.count()
+    SEQS = (('ok',), ('T', 'ok'), ('T', 'F'), ('T', 'T', 'ok'), ('T', 'T', 'T'))
+    for s1, s2 in itertools.product(SEQS, SEQS):
+        N_CASES[0] += 1
+        tag = f'q{next(counter)}'
+        obs = Obs()
+        state = dict(dest_calls=0, it=0, i=0)
+
+        class In(ProcessorBase):
+            name = f'{tag}_in'
+
+            async def process(self, x: int) -> int:
+                return x
+
+        class S(ProcessorBase):
+            name = f'{tag}_s'
+
+            async def process(self, v: Input(In), additional_data: t.Optional[int] = None) -> int:
+                state['it'] += 1
+                state['i'] = 0
+                return 100 + v + (additional_data or 0)
+
+        class M(ProcessorBase):
+            name = f'{tag}_m'
+            attempts, delay, exceptions, use_default = 3, 0.001, (Transient,), True
+
+            async def process(self, s: Input(S)) -> int:
+                seq = (s1, s2)[state['it'] - 1]
+                obs.calls.append((state['it'], 'M', dict(s=s)))
+                o = seq[state['i']] if state['i'] < len(seq) else 'ok'
+                state['i'] += 1
+                if o == 'T':
+                    raise Transient()
+                if o == 'F':
+                    raise Fatal()
+                return s + 1
+
+            def get_default(self, **kw):
+                obs.defaults.append((state['it'], 'M', dict(kw)))
+                return -5
+
+        class R(RecurrentProcessor):
+            name = f'{tag}_r'
+            use_default = True
+
+            async def process(self, m: Input(M)) -> int:
+                state['dest_calls'] += 1
+                if state['dest_calls'] == 1:
+                    return self.next_iteration(1000)
+                return m
+
+            def get_default(self, **kw):
+                return 777
+
+        class Out(ProcessorBase):
+            name = f'{tag}_out'
+
+            async def process(self, r: RecurrentSubGraph(start_node=S, dest_node=R, max_iterations=2)) -> int:
+                return r
+
+        chart = PipelineChart(f'bounded_{tag}', build_dag(In, Out))
+        kind, res = await run_keyed(chart, 5, obs)
+        case = f'retry inside a recurrent subgraph: iteration 1 outcomes={s1}, iteration 2 outcomes={s2}'
+        if kind != 'done':
+            fail('C02' if kind == 'hung' else 'C05', 'retry-in-recurrent', case, kind, 'the run completes')
+            continue
+
+        def expect(seq):
+            i = 0
+            while True:
+                o = seq[i]
+                i += 1
+                if o == 'ok':
+                    return i, False
+                if o == 'T' and i < 3:
+                    continue
+                return i, True
+        for itn, seq in ((1, s1), (2, s2)):
+            n, dflt = expect(seq)
+            got = sum(1 for k, _n, _kw in obs.calls if k == itn)
+            gd = sum(1 for k, _n, _kw in obs.defaults if k == itn)
+            if got != n or gd != (1 if dflt else 0):
+                fail('C12', 'retry-in-recurrent', case, f'iteration {itn}: body invoked {got} times, get_default {gd} times',
+                     f'{n} invocations, get_default {"once" if dflt else "not called"}')
+        n2, d2 = expect(s2)
+        want = -5 if d2 else (100 + 5 + 1000) + 1
+        if res.error is not None or res.value != want:
+            fail('C12', 'retry-in-recurrent', case, f'value={res.value!r} error={res.error!r}', f'value={want}')
+        await settle(obs, 'retry-in-recurrent', case)
+
+
 # ----------------------------------------------------------------------------------------------------------------------
+def _job(job):
+    kind, arg = job
+    if kind == 'acyclic':
+        asyncio.run(acyclic({arg}))
+    elif kind == 'retry':
+        asyncio.run(retry())
+    else:
+        asyncio.run(recurrent())
+        asyncio.run(retry_in_recurrent())
+    return FAILURES, N_CASES[0]
+
+
 def main():
     only = sys.argv[sys.argv.index('--only') + 1] if '--only' in sys.argv else None
     t0 = time.time()
-    for name, fam in (('acyclic', acyclic), ('retry', retry), ('recurrent', recurrent)):
-        if only in (None, name):
-            asyncio.run(fam())
-    result = dict(harness='bounded/engine.py', bound=BOUND, cases=N_CASES[0], failures=FAILURES, wall_s=round(time.time() - t0, 1))
+    jobs = []
+    if only in (None, 'acyclic'):
+        jobs += [('acyclic', i) for i in range(len(acyclic_templates()))]
+    if only in (None, 'retry'):
+        jobs.append(('retry', None))
+    if only in (None, 'recurrent'):
+        jobs.append(('recurrent', None))
+    failures, cases = [], 0
+    import concurrent.futures as cf
+    import multiprocessing as mp
+    with cf.ProcessPoolExecutor(max_workers=min(len(jobs), 8), mp_context=mp.get_context('fork')) as ex:
+        for fl, n in ex.map(_job, jobs):
+            failures += fl
+            cases += n
+    result = dict(harness='bounded/engine.py', bound=BOUND, cases=cases, failures=failures, wall_s=round(time.time() - t0, 1))
     if '--json' in sys.argv:
         with open(sys.argv[sys.argv.index('--json') + 1], 'w') as f:
             json.dump(result, f, indent=1, default=str)
-    print(f'bounded/engine.py: {N_CASES[0]} cases, {len(FAILURES)} failures, {result["wall_s"]} s')
+    print(f'bounded/engine.py: {cases} cases, {len(failures)} failures, {result["wall_s"]} s')
     seen = set()
-    for f_ in FAILURES:
+    for f_ in failures:
         sig = (f_['property'], f_['template'], f_['observed'][:50])
         if sig not in seen and len(seen) < 14:
             seen.add(sig)
             print('  ', f_)
-    sys.exit(1 if FAILURES else 0)
+    sys.exit(1 if failures else 0)
 
 
 if __name__ == '__main__':
